@@ -34,6 +34,14 @@ class Compiled:
         self.case = case
         self.net = make_net(case["family"], case["nseed"])
         self.src_bytes = tflw.build(self.net)
+        if case.get("model_z"):
+            # replay of a recorded witness: the exact bytes that were compiled then (the generators may have changed since)
+            import base64
+            import zlib
+
+            self.src_bytes = zlib.decompress(base64.b64decode(case["model_z"]))
+            if case.get("info"):
+                self.net.info = dict(case["info"])
         self.dir = os.path.join(case["sdir"], "c%d_%d" % (case["nseed"], os.getpid()))
         os.makedirs(self.dir, exist_ok=True)
         self.model_path = os.path.join(self.dir, "net.tflite")
@@ -50,7 +58,15 @@ class Compiled:
         shutil.rmtree(self.dir, ignore_errors=True)
 
     def witness(self):
-        return {"family": self.case["family"], "nseed": self.case["nseed"], "cfg": self.case["cfg"], "kinds": self.net.info.get("kinds")}
+        import base64
+        import zlib
+
+        w = {"family": self.case["family"], "nseed": self.case["nseed"], "cfg": self.case["cfg"], "kinds": self.net.info.get("kinds")}
+        z = base64.b64encode(zlib.compress(self.src_bytes, 9)).decode()
+        if len(z) < 400000:
+            w["model_z"] = z
+            w["info"] = {k: v for k, v in self.net.info.items() if isinstance(v, (str, int, float, list, type(None)))}
+        return w
 
 
 def arena_cache_limit(cfg):
